@@ -1,12 +1,17 @@
 // C05.a: copy-on-write SharedVec (src/vec.h Vec<T,true>) and the Halfedges
 // wrapper (src/shared.h): an arbitrary operation on one handle never changes
 // what another handle observes; all blocks are freed exactly once.
+#include <utility>
 #include "vf_harness.h"
+#define private public   // Halfedges::start_/paired_/propVert_ are inspected to check that storage IS shared
 #include "shared.h"
+#undef private
 using namespace manifold;
 #ifndef VF_N
 #define VF_N 3
 #endif
+// address of the storage block, read through a const reference (no detach)
+template <typename V> static const void* CP(const V& v) { return static_cast<const void*>(v.data()); }
 struct Snap {
   size_t n;
   int v[VF_N + 2];
@@ -59,6 +64,12 @@ extern "C" void h_sharedvec() {
     else if (cfg == 2) { fillsym(b); c = b; }
     else if (cfg == 3) { fillsym(b); fillsym(c); }
     else { SharedVec<int> t(a); b = t; c = std::move(t); }
+    // the configuration the obligation is about really is one of shared
+    // storage (copy ASSIGNMENT shares, copy construction deep-copies)
+    if (cfg == 0 && a.size()) VF_ASSERT(CP(b) == CP(a) && CP(c) == CP(a));
+    if (cfg == 1 && a.size()) VF_ASSERT(CP(b) == CP(a));
+    if (cfg == 2 && b.size()) VF_ASSERT(CP(c) == CP(b));
+    if (cfg == 4 && b.size()) VF_ASSERT(CP(c) == CP(b) && CP(b) != CP(a));
     Snap sa = snap(a), sb = snap(b), sc = snap(c);
     unsigned who = vf_nondet_u32() % 3;
     if (who == 0) { mutate(a, b); same(sb, b); same(sc, c); }
@@ -114,6 +125,9 @@ extern "C" void h_halfedges() {
     if (i < n) h.Set(i, vf_int(), vf_int(), vf_int());
   Halfedges g;
   g = h;  // shares all three arrays
+  if (n) {  // ... and this harness depends on it: check the sharing itself
+    VF_ASSERT(CP(g.start_) == CP(h.start_) && CP(g.paired_) == CP(h.paired_) && CP(g.propVert_) == CP(h.propVert_));
+  }
   int s[6], p[6], q[6];
   for (unsigned i = 0; i < 6; i++)
     if (i < n) { s[i] = g.Start(i); p[i] = g.Pair(i); q[i] = g.Prop(i); }
